@@ -240,11 +240,20 @@ var listers = []lister{
 		ids = usable(ids)
 		m := publicationpb.NewModel(publicationpb.WithPublicationOption(collOpt(&traits.Publication{}, "body")...))
 		for _, id := range ids {
-			if _, err := m.CreatePublication(&traits.Publication{Id: id}); err != nil {
+			if _, err := m.CreatePublication(&traits.Publication{Id: id}, publicationpb.WithNewVersion()); err != nil {
 				panic(err)
 			}
 		}
 		s := publicationpb.NewModelServer(m)
+		// every other publication has been acknowledged by its audience before anybody lists (a write like any other:
+		// what is listed, and under which key, is as before)
+		for i, id := range ids {
+			if i%2 == 0 {
+				if p, ok := m.GetPublication(id); ok {
+					s.AcknowledgePublication(ctx, &traits.AcknowledgePublicationRequest{Name: "n", Id: id, Version: p.Version, Receipt: traits.Publication_Audience_ACCEPTED})
+				}
+			}
+		}
 		return func(size int32, tok string) (page, error) {
 			r, err := s.ListPublications(ctx, masked(&traits.ListPublicationsRequest{Name: "n", PageSize: size, PageToken: tok}).(*traits.ListPublicationsRequest))
 			if err != nil {
